@@ -365,6 +365,11 @@ pub async fn run(cli: &Cli, report: &mut Report) {
                 report.inconclusive(&format!("{}: harness was starved ({worst:?} late), timing verdict void", o.class));
                 continue;
             }
+            // cookie ages are wall-clock too: the margins around the expiry are 1.5 s and more
+            if o.class.starts_with("cookie") && worst > Duration::from_secs(1) {
+                report.inconclusive(&format!("{}: harness was starved ({worst:?} late), cookie-age verdict void", o.class));
+                continue;
+            }
             report.violation(&sig, &what, json!({"case": o.class, "observed": o.detail}));
         }
     }
